@@ -45,16 +45,13 @@ def handle (feats : Features) (t : List String) : Option String :=
     else if !isValidAscii dp then some "opterr InvalidDecimalPoint -"
     else
       let e := formatError feats f
-      if partial_ = "1" then
-        -- `from_lexical_partial_with_options` goes straight to `parse_partial` → `check_radix!`
-        if e ≠ "Success" then some "err InvalidRadix -"
-        else if !mixedRadixOk feats f then some "err InvalidRadix -"
-        else none
-      else
-        if e ≠ "Success" then some s!"err {e} -"
-        else if !isValidOptionsPunctuation feats f exp dp then some "err InvalidPunctuation -"
-        else if !mixedRadixOk feats f then some "err InvalidRadix -"
-        else none
+      -- both entry points validate the format and the option punctuation first
+      -- (the partial one since /repo fix e9d14fa), then `check_radix!`
+      let _ := partial_
+      if e ≠ "Success" then some s!"err {e} -"
+      else if !isValidOptionsPunctuation feats f exp dp then some "err InvalidPunctuation -"
+      else if !mixedRadixOk feats f then some "err InvalidRadix -"
+      else none
   -- lexical-write-integer/src/api.rs: `assert!(NumberFormat::<{ FORMAT }> {}.is_valid())`
   | ["wi", _ty, h, _v, _buf] =>
     if formatError feats (fmtOf h) ≠ "Success" then some "panic" else none
